@@ -98,7 +98,7 @@ class C03(E1Check):
         return cfgs
 
     def budget(self):
-        return 600 if self.tier == "quick" else 2400
+        return 600 if self.tier == "quick" else 1200
 
     def probes(self):
         if self._probes is None:
